@@ -424,8 +424,10 @@ Section Cgroup.
       | Some k2 =>
         let ctl := firstn k2 rest in
         match ctl with
-        | [] => false
-        | _ => existsb (list_eqb name) (split_on COMMA ctl)
+        | [] => false                                   (* empty controller list *)
+        | _ => list_eqb ctl name                        (* whole literal match *)
+               || (existsb (beq COMMA) ctl               (* no comma: nothing more to try *)
+                   && existsb (list_eqb name) (split_on COMMA ctl))
         end
       end
     end.
@@ -446,11 +448,11 @@ Section Cgroup.
     else find (fun l => entry_has_controller l arg) (tok_lines content).
 
   (** documented selection: the first line "N:..." for a hierarchy number, the first line whose
-      controller list (second colon-separated field) names the controller otherwise *)
+      controller list (second colon-separated field of at least three) names the controller (or is the pattern) otherwise *)
   Definition cgroup_spec (content arg : list byte) : option (list byte) :=
     if all_digits arg then find (fun l => prefixb (arg ++ [COLONB]) l) (split_on NL content)
     else find (fun l => match split_on COLONB l with
-                        | _ :: ctl :: _ :: _ => negb (Nat.eqb (length ctl) 0) && existsb (list_eqb arg) (split_on COMMA ctl)
+                        | _ :: ctl :: _ :: _ => negb (Nat.eqb (length ctl) 0) && (list_eqb ctl arg || existsb (list_eqb arg) (split_on COMMA ctl))
                         | _ => false end) (split_on NL content).
 End Cgroup.
 
@@ -709,7 +711,7 @@ Definition cg_consts_ok (c : ds_consts) : bool :=
 Definition rp_consts_ok (c : ds_consts) : bool :=
   list_eqb (rp_key_name c) (lit "Name") && list_eqb (rp_key_ppid c) (lit "PPid") && list_eqb (rp_unknown c) (lit "(unknown)")
   && N.eqb (rp_root_pid c) 1 && N.eqb (rp_zero_pid c) 0 && list_eqb (rp_path_fmt c) (lit "/proc/%d/status") && rp_start_is_getpid c
-  && N.ltb 0 (rp_val_max c).
+  && N.leb 65 (rp_val_max c).
 
 Definition misc_consts_ok (c : ds_consts) : bool :=
   (N.ltb 0 (path_max c) && N.ltb 1 (login_name_max c) && N.ltb 1 (dt_buf c) && negb (Nat.eqb (length (dt_default_fmt c)) 0))%bool.
